@@ -5,7 +5,7 @@ package minijson
 // Contracts for govc (see /verif/DESIGN.md, C16). Comment-only file.
 
 //@ smt
-//@ (define-fun isdigit ((c Int)) Bool (and (<= 48 c) (<= c 57)))
+//@ (define-fun isdigit ((isdigit!c Int)) Bool (and (<= 48 isdigit!c) (<= isdigit!c 57)))
 //@ ; fnd(s): index of the first byte of s that is not a decimal digit (len(s) if there is none)
 //@ (declare-fun fnd (Str) Int)
 //@ (assert (forall ((s Str)) (! (let ((p (fnd s))) (and (<= 0 p) (<= p (slen s)) (or (= p (slen s)) (not (isdigit (sat s p))))
